@@ -176,6 +176,7 @@ func TestCheck(t *testing.T) {
 	familyB(t, r, conds)
 	familyC(t, r)
 	familyD(t, r, conds)
+	familyD4(t, r)
 	r.Finish(t)
 }
 
@@ -762,5 +763,88 @@ func familyD(t *testing.T, r *mc.Run, conds []string) {
 				})
 			})
 		}
+	}
+}
+
+// familyD4: a processor of a REFERENCED flow answers the request itself.  Flow fa (matched by
+// the transaction) references flow fb in both directions:
+//
+//	fa.request : from flow fb at end -> P1 -> end        fa.response: start -> R1 ; R1 -> flow fb at start
+//	fb.request : start -> X1 ; X1[a] -> end              fb.response: start -> Y0 -> end ; X1 -> Y1 ; Y1 -> end
+//
+// When X1 answers early the response path continues from X1's response connection (Y1),
+// not from the response entry point.
+func familyD4(t *testing.T, r *mc.Run) {
+	if sh, _ := r.Shard(); sh != 1%16 {
+		return
+	}
+	end := "        stream:\n          name: globalStream\n          at: end\n"
+	start := "        stream:\n          name: globalStream\n          at: start\n"
+	proc := func(n, cond string) string {
+		s := "        processor:\n          name: " + n + "\n"
+		if cond != "" {
+			s += "          condition: " + cond + "\n"
+		}
+		return s
+	}
+	ref := func(at string) string { return "        flow:\n          name: fb\n          at: " + at + "\n" }
+	conn := func(from, to string) string { return "    - from:\n" + from + "      to:\n" + to }
+	procs := func(keys ...string) string {
+		s := "processors:\n"
+		for _, k := range keys {
+			s += "  " + k + ":\n    processor: VerifProbe\n"
+		}
+		return s
+	}
+	fa := "name: fa\nfilter:\n  url: h.com/*\n" + procs("P1", "R1") + "flow:\n  request:\n" +
+		conn(ref("end"), proc("P1", "")) + conn(proc("P1", ""), end) +
+		"  response:\n" + conn(start, proc("R1", "")) + conn(proc("R1", ""), ref("start"))
+	fb := "name: fb\nfilter:\n  url: other.org/*\n" + procs("X1", "Y0", "Y1") + "flow:\n  request:\n" +
+		conn(start, proc("X1", "")) + conn(proc("X1", "a"), end) +
+		"  response:\n" + conn(start, proc("Y0", "")) + conn(proc("Y0", ""), end) + conn(proc("X1", ""), proc("Y1", "")) + conn(proc("Y1", ""), end)
+	files := eng.Files{Flows: map[string]string{"fa.yaml": fa, "fb.yaml": fb}}
+	s, _, err := load(files)
+	if err != nil {
+		r.Add("rejected_graphs", 1)
+		r.Outcome("D4 rejected: " + firstWords(err.Error()))
+		return
+	}
+	r.Add("graphs", 1)
+	for _, x1 := range []string{"early", "a", ""} {
+		plan := map[string]string{"req:fa/X1": x1}
+		var wantReq, wantRes []string
+		switch x1 {
+		case "early":
+			wantReq, wantRes = []string{"X1"}, []string{"Y1"}
+		case "a":
+			wantReq, wantRes = []string{"X1", "P1"}, []string{"R1", "Y0"}
+		default:
+			wantReq, wantRes = []string{"X1"}, []string{"R1", "Y0"}
+		}
+		for _, cur := range []bool{false, true} {
+			probe.ReportCurrentType = cur
+			evs, v, rv := runTxn(s, "h.com/x", plan, true)
+			r.Add("evaluations", 1)
+			var gotReq, gotRes []string
+			for _, e := range evs {
+				if e.Dir == "req" {
+					gotReq = append(gotReq, e.Key)
+				} else {
+					gotRes = append(gotRes, e.Key)
+				}
+			}
+			r.NonTrivial(fmt.Sprintf("D4|%s|%v", x1, cur))
+			r.Outcome(fmt.Sprintf("D4 x1=%q req=%v res=%v", x1, gotReq, gotRes))
+			if v.Err != "" || rv.Err != "" || !eq(wantReq, gotReq) || !eq(wantRes, gotRes) {
+				clause := "FLOW-REFERENCE:D4"
+				if x1 == "early" {
+					clause += ":after-early-response"
+				}
+				r.Violation(clause, fmt.Sprintf("family D4 (a processor of the referenced flow fb, X1, outputs %q): expected request %v response %v, observed request %v response %v %s%s", x1, wantReq, wantRes, gotReq, gotRes, v.Err, rv.Err),
+					replay{cur, "D4", files.Flows, nil, plan, "h.com/x", append(append([]string{}, wantReq...), wantRes...), probeStrings(evs)})
+				break
+			}
+		}
+		probe.ReportCurrentType = false
 	}
 }
